@@ -159,6 +159,27 @@ static void probes(char const* what)
     if (have != (g_m.loggers.count(l) != 0))
       fail("get_logger-wrong", std::string(what) + ": get_logger(" + LN[l] + ") " + (have ? "found a logger" : "found nothing"));
   }
+  // the enumerating look-ups agree with the look-up by name: get_all_loggers() lists exactly the model's loggers, each once;
+  // get_valid_logger() returns one of them (none when there is none), also with an exclusion pattern
+  {
+    std::vector<L*> const all = F::get_all_loggers();
+    std::multiset<std::string> names;
+    for (L* p : all) names.insert(p->get_logger_name());
+    std::multiset<std::string> want;
+    for (auto const& kv : g_m.loggers) want.insert(LN[kv.first]);
+    if (names != want)
+      fail("get_all_loggers-wrong", std::string(what) + ": get_all_loggers() lists " + std::to_string(names.size()) + " logger(s), the model has " + std::to_string(want.size()));
+    L* any = F::get_valid_logger();
+    if ((any != nullptr) != !want.empty() || (any && !want.count(any->get_logger_name())))
+      fail("get_valid_logger-wrong", std::string(what) + ": get_valid_logger() " + (any ? "returned " + any->get_logger_name() : std::string("returned nothing")));
+    for (int l = 0; l < 2; ++l)
+    {
+      L* other = static_cast<L*>(detail::LoggerManager::instance().get_valid_logger(LN[l]));
+      bool const expect_some = g_m.loggers.count(1 - l) != 0;
+      if ((other != nullptr) != expect_some || (other && other->get_logger_name() != LN[1 - l]))
+        fail("get_valid_logger-wrong", std::string(what) + ": get_valid_logger(exclude " + LN[l] + ") " + (other ? "returned " + other->get_logger_name() : std::string("returned nothing")));
+    }
+  }
 }
 
 static std::string op_name(int op)
